@@ -36,6 +36,8 @@ BOUNDS = {
                 "JSON-relevant characters" % len(JSON_VALUES),
         "shared_buffer": "10^3 consecutive saves alternating over 4 CSV/TSV classes that share the class-level "
                          "buffer, each output compared with a fresh csv.writer and loaded back",
+        "derived_classes": "record classes derived from a concrete record class (an extra field; another delimiter), saved parent-first, "
+                           "child-first and sibling-first",
         "record_files": "4 record-file classes x {csv, tsv, json} x all sub-lists (length 1..3) of a pool of 4 "
                         "records x line terminator {LF, save()'s own CRLF}; index, negative index, slices, "
                         "iterables, iteration",
@@ -47,6 +49,7 @@ BOUNDS = {
         "csv_tsv_strings": "length <= 3 over 10 characters (adds ' ; 0) and length 4 over the 7 characters",
         "json": "as quick + strings of length <= 3",
         "shared_buffer": "10^4 consecutive saves",
+        "derived_classes": "as quick",
         "record_files": "as quick with sub-lists up to length 4",
         "mutable_record_files": "histories of length <= 3, 2000 random histories",
     },
@@ -75,6 +78,8 @@ def cases(tier, seed):
     else:
         strs = _strings(CSV_CHARS_THOROUGH, 3) + list(U.strings_upto(CSV_CHARS, 4, 4))
     yield {"kind": "shared_buffer", "n": 1000 if quick else 10000, "seed": seed}
+    for order in ("parent-first", "child-first", "sibling-first"):
+        yield {"kind": "derived", "order": order}
     for i, s in enumerate(strs):
         for fmt in FORMATS:
             yield {"kind": "csv", "fmt": fmt, "s": s, "i": i}
@@ -213,6 +218,41 @@ def _run_json(case):
     if json.loads(sv) != {"a": case["a"], "b": case["b"]}:
         return _fail("records/json-save-text", {"a": case["a"], "b": case["b"]}, sv)
     return dict(OK, scenario="records/json-roundtrip")
+
+
+def _run_derived(case):
+    """record classes derived from other CONCRETE record classes (another delimiter, an extra field), saved in both orders: every
+    class must be written with its own field names and its own delimiter"""
+    from dataclasses import dataclass
+    L = U.lib()
+
+    @dataclass
+    class A(L.F.CSVRecord):
+        n: int
+        s: str
+
+    @dataclass
+    class B(A):                      # derived from a concrete class: one more field
+        t: str = "dflt"
+
+    @dataclass
+    class C(A):                      # derived from a concrete class: another delimiter
+        _delimiter = ";"
+
+    order = {"parent-first": [A, B, C, A], "child-first": [B, C, A, B], "sibling-first": [C, B, A, C]}[case["order"]]
+    for k, cls in enumerate(order):
+        if cls is B:
+            r, fields, delim = B(k, "x,y;z", "t" + str(k)), [k, "x,y;z", "t" + str(k)], ","
+        elif cls is C:
+            r, fields, delim = C(k, "x,y;z"), [k, "x,y;z"], ";"
+        else:
+            r, fields, delim = A(k, "x,y;z"), [k, "x,y;z"], ","
+        bad = _check_csv_roundtrip(r, fields, delim)
+        if bad:
+            bad["scenario"] = bad["scenario"].replace("records/", "records/derived-classes/")
+            bad["observed"] = "%s (save #%d, order %s): %s" % (cls.__name__, k, case["order"], bad["observed"])
+            return bad
+    return dict(OK, scenario="records/derived-classes")
 
 
 def _run_shared_buffer(case):
@@ -371,6 +411,8 @@ def run_case(case):
         return _run_json(case)
     if k == "shared_buffer":
         return _run_shared_buffer(case)
+    if k == "derived":
+        return _run_derived(case)
     if k == "recfile":
         return _run_recfile(case)
     if k == "mutrec":
